@@ -221,6 +221,9 @@ inductive Rec where
   | jump (t : Nat) (delta : Nat)
   /-- the output of `blk` observed at wall-clock instant `t` -/
   | probe (t : Nat) (blk : Nat) (out : Bool)
+  /-- injected latency: the timer callbacks due at `t` were run `delta` µs late (a load peak of the
+      environment, not a behaviour of cron) -/
+  | late (t : Nat) (delta : Nat)
   deriving Repr, Inhabited
 
 structure BState where
@@ -232,7 +235,9 @@ structure BState where
 
 structure State where
   now : Nat := 0          -- latest instant seen
-  lastJump : Nat := 0     -- instant at which the latest clock jump arrived (0: none)
+  graceEnd : Nat := 0     -- no deadline of a pending clock jump / injected delay is later than this
+  lateEnd : Nat := 0      -- end of the window of the latest injected delay …
+  lateDelta : Nat := 0    -- … and its length
   blocks : Nat → Option BState := fun _ => none
 
 instance : Inhabited State := ⟨{}⟩
@@ -253,6 +258,13 @@ def markStale (t delta bound : Nat) (b : BState) : BState :=
                           | some dl => if t ≤ dl then dl + delta else t + delta + bound
                           | none => t + delta + bound) }
 
+/-- an injected delay of `delta` at `t`: until `t + delta + lam` the accuracy `lam` is not demanded
+    (a longer deadline that is still running is kept) -/
+def markLate (t delta lam : Nat) (b : BState) : BState :=
+  { b with stale := some (match b.stale with
+                          | some dl => if t + delta + lam ≤ dl then dl else t + delta + lam
+                          | none => t + delta + lam) }
+
 /-- bookkeeping only: which configuration is current, the latest reading, pending jumps -/
 def apply (p : Params) (st : State) : Rec → State
   | .config blk cfg read out =>
@@ -268,16 +280,23 @@ def apply (p : Params) (st : State) : Rec → State
                           blocks := update st.blocks blk { b with last := read, out := out, stale := none } }
     | none => st
   | .jump t delta =>
-    { now := t + delta, lastJump := t + delta,
-      blocks := fun k => (st.blocks k).map (markStale t delta p.bound) }
+    { st with now := t + delta, graceEnd := t + delta + p.bound,
+              blocks := fun k => (st.blocks k).map (markStale t delta p.bound) }
   | .probe t _ _ => { st with now := t }
+  | .late t delta =>
+    { now := t, graceEnd := if st.graceEnd ≤ t + delta + p.lam then t + delta + p.lam else st.graceEnd,
+      lateEnd := t + delta + p.lam, lateDelta := delta,
+      blocks := fun k => (st.blocks k).map (markLate t delta p.lam) }
+
+/-- how much later than `lam` an alarm may be served at `read`: the injected delay while its window lasts -/
+def lateSlack (st : State) (read : Nat) : Nat := if read ≤ st.lateEnd then st.lateDelta else 0
 
 inductive Verdict where
   | ok
   | order        -- time runs backwards / unknown block
   | s1           -- output ≠ predicate of the reading
   | s2           -- a boundary was not served within `lam`
-  | s3           -- no recalculation within `bound` after a clock jump
+  | s3           -- a boundary left unserved beyond the grace period of a clock jump / an injected delay
   deriving Repr, DecidableEq
 
 /-- (S2)/(S3) for a block at instant `t`: no boundary of the block has been left unserved for more
@@ -310,6 +329,7 @@ def verdict (p : Params) (st : State) : Rec → Verdict
       if t < st.now then .order
       else if out ≠ b.out then .s1
       else coverage p b t
+  | .late t delta => if t < st.now ∨ p.bound < delta + p.lam then .order else .ok
 
 def run (p : Params) : State → List Rec → Option State
   | st, [] => some st
